@@ -77,6 +77,7 @@ void schedh_return(int thr, const sched_req_t *req, int rc, int next_id);
 void schedh_select_invoke(int thr, int stream);
 /* id: index of the returned task, -1 for NULL, -2 for a pointer that is none of our tasks */
 void schedh_selected(int thr, int stream, int id, int distance, int from_next_task);
+int  schedh_drain_flush(int stream);                     /* final drain: call __parsec_schedule_flush_private on this stream now? */
 int  schedh_failed(void);                                /* 1 once a violation has been recorded: stop, skip the teardown */
 void schedh_event(int kind, long a, long b);            /* 99: parsec_init failed; 98: unexpected scheduler installed */
 #endif
